@@ -16,6 +16,7 @@ import (
 	"verif/internal/ev"
 	"verif/internal/g"
 	"verif/internal/lat"
+	"verif/internal/mesh"
 	"verif/internal/shape"
 )
 
@@ -98,10 +99,45 @@ func distinct2(pts []v2.Vec) int {
 // stress scene (features smaller than a coarse cube, spheres tangent to lattice
 // planes, surfaces through lattice nodes).
 func scene3(t *rapid.T, cells int) (sdf.SDF3, string, string, bool) {
-	kind := rapid.SampledFrom([]string{"program", "program", "small-far-parts", "lattice-tangent-spheres", "thin-plate"}).Draw(t, "kind")
+	kind := rapid.SampledFrom([]string{"program", "program", "small-far-parts", "lattice-tangent-spheres", "thin-plate", "corner-clipping-plane"}).Draw(t, "kind")
 	switch kind {
+	case "corner-clipping-plane":
+		// the emptiness test of a cube compares the centre value with the half diagonal: the decisive
+		// inputs are surfaces that clip a cube by a sliver at one corner, normal along the cube diagonal.
+		// The lattice is recorded from a calibration render of a tiny constant field in the same box
+		// (nothing is pruned), a cube of some octree level and one of its corners are drawn, and the
+		// half space ends a small fraction of the cube side past that corner.
+		n := float64(cells)
+		bb := sdf.Box3{Min: v3.Vec{}, Max: v3.Vec{X: n, Y: n, Z: n}}
+		cal := &lat.Recorder3{S: lat.Const3{V: 1e-300, BB: bb}}
+		render.ToTriangles(cal, render.NewMarchingCubesOctree(cells))
+		ax := lat.AxesOf3(cal.Pts, 1e-9)
+		N := len(ax.X) - 1
+		if N < 2 || len(ax.Y) != N+1 || len(ax.Z) != N+1 {
+			return nil, kind, "", false
+		}
+		maxL := 0
+		for (2 << maxL) <= N/2 {
+			maxL++
+		}
+		L := rapid.IntRange(0, maxL).Draw(t, "level")
+		side := 1 << L
+		var q, e v3.Vec
+		idx := func(l string, axis []float64) (float64, float64) {
+			a := rapid.IntRange(0, N/side-1).Draw(t, l+".cube")
+			b := rapid.IntRange(0, 1).Draw(t, l+".corner")
+			return axis[(a+b)*side], float64(1 - 2*b)
+		}
+		q.X, e.X = idx("x", ax.X)
+		q.Y, e.Y = idx("y", ax.Y)
+		q.Z, e.Z = idx("z", ax.Z)
+		res := ax.X[1] - ax.X[0]
+		eps := g.LogUniform(t, "sliver-depth-in-cube-sides", 1e-7, 1e-2)
+		nrm := e.MulScalar(1 / math.Sqrt(3))
+		pl := plane3{nrm, nrm.Dot(q) + eps*float64(side)*res, bb}
+		return pl, kind, fmt.Sprintf("half space through the corner %v of a level-%d cube (side %d cells), %g cube sides deep, normal %v", q, L, side, eps, nrm), true
 	case "program":
-		S := rapid.SampledFrom([]float64{1, 10}).Draw(t, "scale")
+		S := rapid.SampledFrom([]float64{1, 10, 1, 10, 1e-7, 1e-4, 1e4}).Draw(t, "scale")
 		n := shape.Gen3(t, shape.Opts{S: S, Depth: rapid.IntRange(0, 3).Draw(t, "depth"), Grammar: shape.Lipschitz, NoPoly: true, SolidUnion2: true})
 		b, err := shape.Build(n)
 		if err != nil {
@@ -237,10 +273,40 @@ func TestOctreeLosesNothing(t *testing.T) {
 }
 
 func scene2(t *rapid.T, cells int) (sdf.SDF2, string, string, bool) {
-	kind := rapid.SampledFrom([]string{"program", "program", "small-far-parts", "lattice-tangent-circles", "thin-bar"}).Draw(t, "kind")
+	kind := rapid.SampledFrom([]string{"program", "program", "small-far-parts", "lattice-tangent-circles", "thin-bar", "corner-clipping-line"}).Draw(t, "kind")
 	switch kind {
+	case "corner-clipping-line":
+		// 2D analogue of corner-clipping-plane (see scene3)
+		n := float64(cells)
+		bb := sdf.Box2{Min: v2.Vec{}, Max: v2.Vec{X: n, Y: n}}
+		cal := &lat.Recorder2{S: lat.Const2{V: 1e-300, BB: bb}}
+		collect2(cal, render.NewMarchingSquaresQuadtree(cells))
+		ax := lat.AxesOf2(cal.Pts, 1e-9)
+		N := len(ax.X) - 1
+		if N < 2 || len(ax.Y) != N+1 {
+			return nil, kind, "", false
+		}
+		maxL := 0
+		for (2 << maxL) <= N/2 {
+			maxL++
+		}
+		L := rapid.IntRange(0, maxL).Draw(t, "level")
+		side := 1 << L
+		var q, e v2.Vec
+		idx := func(l string, axis []float64) (float64, float64) {
+			a := rapid.IntRange(0, N/side-1).Draw(t, l+".square")
+			b := rapid.IntRange(0, 1).Draw(t, l+".corner")
+			return axis[(a+b)*side], float64(1 - 2*b)
+		}
+		q.X, e.X = idx("x", ax.X)
+		q.Y, e.Y = idx("y", ax.Y)
+		res := ax.X[1] - ax.X[0]
+		eps := g.LogUniform(t, "sliver-depth-in-square-sides", 1e-7, 1e-2)
+		nrm := e.MulScalar(1 / math.Sqrt(2))
+		pl := plane2{nrm, nrm.Dot(q) + eps*float64(side)*res, bb}
+		return pl, kind, fmt.Sprintf("half plane through the corner %v of a level-%d square (side %d cells), %g sides deep, normal %v", q, L, side, eps, nrm), true
 	case "program":
-		S := rapid.SampledFrom([]float64{1, 10}).Draw(t, "scale")
+		S := rapid.SampledFrom([]float64{1, 10, 1, 10, 1e-7, 1e-4, 1e4}).Draw(t, "scale")
 		n := shape.Gen2(t, shape.Opts{S: S, Depth: rapid.IntRange(0, 3).Draw(t, "depth"), Grammar: shape.Lipschitz, NoPoly: true, SolidUnion2: true})
 		b, err := shape.Build(n)
 		if err != nil {
@@ -285,6 +351,25 @@ func scene2(t *rapid.T, cells int) (sdf.SDF2, string, string, bool) {
 		return lat.Rebox2{S: sdf.Transform2D(bx, m), BB: sdf.Box2{Min: v2.Vec{X: -L / 2, Y: -L / 2}, Max: v2.Vec{X: L / 2, Y: L / 2}}}, kind, fmt.Sprintf("bar thickness %g", th), true
 	}
 }
+
+// plane3 / plane2: the half space n.p <= d as an exact distance field with a chosen bounding box
+type plane3 struct {
+	n  v3.Vec
+	d  float64
+	bb sdf.Box3
+}
+
+func (p plane3) Evaluate(q v3.Vec) float64 { return p.n.Dot(q) - p.d }
+func (p plane3) BoundingBox() sdf.Box3     { return p.bb }
+
+type plane2 struct {
+	n  v2.Vec
+	d  float64
+	bb sdf.Box2
+}
+
+func (p plane2) Evaluate(q v2.Vec) float64 { return p.n.Dot(q) - p.d }
+func (p plane2) BoundingBox() sdf.Box2     { return p.bb }
 
 type minOf2 []sdf.SDF2
 
@@ -426,15 +511,18 @@ func TestOctreeHighResolution(t *testing.T) {
 		// closedness (directed edge balance) with exact vertex identity: adjacent cells compute a shared
 		// vertex from the same two lattice points; allow the order of the end points to differ (1e-6 h)
 		type e2 struct{ a, b int }
-		ids := map[[3]int64]int{}
-		id := func(v v3.Vec) int {
-			k := [3]int64{int64(math.Round(v.X / (1e-4 * h))), int64(math.Round(v.Y / (1e-4 * h))), int64(math.Round(v.Z / (1e-4 * h)))}
-			if i, ok := ids[k]; ok {
-				return i
+		// (vertex identity by union-find welding at 1e-4 h: rounding to a grid of buckets would split
+		// the two copies of a vertex that straddle a bucket boundary and report edges that are not open)
+		wd := mesh.NewWelder3(1e-4 * h)
+		raw := map[v3.Vec]int{}
+		for _, tr := range ts {
+			for _, v := range tr {
+				if _, ok := raw[v]; !ok {
+					raw[v] = wd.Add(v)
+				}
 			}
-			ids[k] = len(ids)
-			return len(ids) - 1
 		}
+		id := func(v v3.Vec) int { return wd.Root(raw[v]) }
 		cnt := map[e2]int{}
 		worst := 0.0
 		for _, tr := range ts {
@@ -514,21 +602,15 @@ func TestQuadtreeHighResolution(t *testing.T) {
 		s := rod2{a: c.Sub(dir.MulScalar(half)), b: c.Add(dir.MulScalar(half)), r: r, bb: sdf.Box2{Min: v2.Vec{X: -L / 2, Y: -L / 2}, Max: v2.Vec{X: L / 2, Y: L / 2}}}
 		ls := collect2(s, render.NewMarchingSquaresQuadtree(cells))
 		desc := fmt.Sprintf("capsule %v..%v radius %v in a %v box", s.a, s.b, r, L)
-		deg := map[[2]int64]int{}
 		worst, length := 0.0, 0.0
 		for _, l := range ls {
 			for _, v := range l {
-				deg[[2]int64{int64(math.Round(v.X / (1e-4 * h))), int64(math.Round(v.Y / (1e-4 * h)))}]++
 				worst = math.Max(worst, math.Abs(s.Evaluate(v)))
 			}
 			length += l[1].Sub(l[0]).Length()
 		}
-		odd := 0
-		for _, d := range deg {
-			if d%2 != 0 {
-				odd++
-			}
-		}
+		// end point identity by union-find welding (see the octree test)
+		odd := mesh.Analyze2(ls, 1e-4*h).OddPoints
 		if len(ls) == 0 || odd > 0 {
 			rec.Violation(t, "MarchingSquaresQuadtree:high-resolution:not-closed", "%d cells, %s: %d segments, %d end points of odd degree", cells, desc, len(ls), odd)
 		}
